@@ -36,6 +36,8 @@ var Prop = &engine.Prop{
 	},
 	ShardsQuick: 4, ShardsThorough: 16,
 	Kinds: []engine.Kind{
+		// must stay first: its first case in a process makes the first encoder calls of that process
+		{Name: "cold_start", Quick: 32, Thorough: 64, Fn: coldStartCase},
 		{Name: "rt_direct", Quick: 1200, Thorough: 360000, Fn: rtDirectCase},
 		{Name: "rt_retained", Quick: 1500, Thorough: 150000, Fn: rtRetainedCase},
 		{Name: "rt_json", Quick: 1200, Thorough: 360000, Fn: rtJSONCase},
